@@ -25,6 +25,12 @@ Proof.
   apply (spec_kmers_ext nt4 digit_of_letter (fun b => 4 <= b < 256) k s Hs C01_alphabet).
 Qed.
 
+(* the specification list spelled out: one entry for each start position 0 .. |s|-k, in increasing order, present
+   exactly when the k bytes from that position are all clean *)
+Theorem C01_spec_enumerates_the_windows :
+  forall nt4 k s, spec_kmers nt4 k s = flat_map (fun p => emit nt4 (window s p k)) (seq 0 (length s + 1 - k)).
+Proof. exact spec_kmers_windows. Qed.
+
 (* non-vacuity: a concrete input with an ambiguous byte in the middle *)
 Example C01_example : kg_run nt4 2 [65; 67; 78; 71; 84; 84] = [(1, 11); (11, 1); (15, 0)].
 Proof. vm_compute. reflexivity. Qed.
@@ -32,3 +38,4 @@ Proof. vm_compute. reflexivity. Qed.
 Print Assumptions C01_iterator_exact.
 Print Assumptions C01_alphabet.
 Print Assumptions C01_iterator_exact_letters.
+Print Assumptions C01_spec_enumerates_the_windows.
